@@ -26,6 +26,9 @@ InsideText(r) ==
   \/ (n = 0 /\ r.row = 1 /\ r.col = 1)
   \/ (r.row >= 1 /\ r.row <= n /\ r.col >= 1 /\ r.col <= r.lens[r.row] + 1)
   \/ (r.row = n + 1 /\ r.col = 1)            \* immediately after a final line break
+  \/ (r.row = r.endrow /\ r.col = r.endcol)  \* immediately after the last character of the text, in the coordinates
+                                             \* of the position machine of Text.tla (the characters of a line break
+                                             \* sit at the column after the line's last character)
 
 Admissible(r) ==
   CASE r.kind \in {"panic", "abort", "timeout"} -> FALSE
